@@ -43,6 +43,14 @@ func properties() []Property {
 			Harnesses: []HarnessSpec{
 				{Name: "H_C12_step", Profile: "bit", Quick: b("preEntries", 1), Thorough: b("preEntries", 2), Covers: []string{"pre-state-built", "transfer-refused", "transfer-succeeded"}},
 			}},
+		{ID: "C17", Assumptions: []string{aSummaries, aModels, aE3, "the collections summary includes the key codec's refusal of 0x00 in non-terminal string key components", "genesis lists of at most list / entries elements, counterparty strings of at most strlen bytes, protocol / action ids any int32; JSON (un)marshalling of the genesis document and module.go glue are outside the claim"},
+			Harnesses: []HarnessSpec{
+				{Name: "H_C17_forwarder", Profile: "bit", Quick: b("list", 2, "strlen", 2), Thorough: b("list", 3, "strlen", 3), Covers: []string{"genesis-rejected", "genesis-accepted", "genesis-initialised"}},
+				{Name: "H_C17_executor", Profile: "bit", Quick: b("list", 3), Thorough: b("list", 4), Covers: []string{"genesis-rejected", "genesis-accepted", "genesis-initialised"}},
+				{Name: "H_C17_adapter", Profile: "bit", Covers: []string{"genesis-accepted", "genesis-initialised"}},
+				{Name: "H_C17_roundtrip", Profile: "bit", Quick: b("steps", 2, "strlen", 1), Thorough: b("steps", 3, "strlen", 2), Covers: []string{"re-initialised"}, TimeoutQuick: 300},
+				{Name: "H_C17_dispatcher", Profile: "bit", Quick: b("entries", 1, "strlen", 1, "denomlen", 3), Thorough: b("entries", 2, "strlen", 2, "denomlen", 4), TimeoutQuick: 300, Covers: []string{"genesis-rejected", "genesis-accepted", "genesis-initialised"}},
+			}},
 		{ID: "C18", Assumptions: []string{aSummaries, aModels, aE1, "the passthrough payload is an all-zero byte slice whose LENGTH is symbolic in [0, maxlen] (the hook reads only len)"},
 			Harnesses: []HarnessSpec{
 				{Name: "H_C18_limit", Profile: "bit", Quick: b("updates", 2, "maxlen", 70000), Thorough: b("updates", 3, "maxlen", 5000000), Covers: []string{"over-limit", "within-limit", "params-unreadable"}},
